@@ -12,7 +12,7 @@ CONSTANTS
   MaxInstr = 30
   MaxTx = 8
   SupplyCap = 14
-  DataVals = {2}
+  DataVals = {7, 8}
   InitLedgers <- InitZ
   FailOdds = 4
   EndOdds = 3
